@@ -8,6 +8,7 @@ import TPV.Model.Train
     resume <old> <N> <k> <sanity> <valEvery> <opt> <spec>  run to k, save, `resume` to N (old=1: counter restarts at 0)
     files  <N> <interval> <opt> <spec>                   `wsRun` (WeightSaveCallback)
     reg    <spec>                                        `registry`
+    lrhist <N> <opt> <spec>                              final state and learning-rate history of a long run
 
     <opt>  := lr momentum dampening wd stepSize gamma freq
     <spec> := many(id value) many(cond) many(cond)
@@ -81,6 +82,16 @@ def step (line : String) : String :=
       return showNats (registry s) ++ " | " ++ " | ".intercalate (tr.map fun st => showRats st.θ) ++
         " | " ++ showOpt last.opt ++ " | logged " ++ showList (fun st => showLogged st.logged) (tr.drop 1) ++
         " | it " ++ showNats (tr.map (·.nIter)) ++ " | grad " ++ showList (fun st => if st.gradOn then "1" else "0") tr
+    | "lrhist" => do
+      -- long runs: registry | final state | learning rate in force after every step
+      let N ← nat
+      let o ← optSpec; let s ← spec
+      if !s.wellFormed then return "err:unbound"
+      let cfg := s.toCfg o
+      let s0 := onTrainStart (fresh cfg s.θ0 (s.opt0 o))
+      let (last, lrs) := (List.range N).foldl (fun (p : St Rat OptState × List Rat) _ =>
+        let st := trainStep cfg p.1; (st, st.opt.lr :: p.2)) (s0, [])
+      return showNats (registry s) ++ " | " ++ showRats last.θ ++ " | " ++ showRats lrs.reverse
     | "ref" => do
       let N ← nat
       let o ← optSpec; let s ← spec
